@@ -104,7 +104,12 @@ def f_raise2(P, q):
     ops.Dgate(0.3 + 0.1j, 0.0).H | q[1]
 
 
-FRAGS = {"prep": f_prep, "dagger": f_dagger, "free": f_free, "meas": f_meas, "newdel": f_newdel, "loss": f_loss, "meas2": f_meas2, "ffprev": f_ffprev, "delspare": f_delspare, "loss2": f_loss2}
+def f_msshot(P, q):
+    """measurement-based squeezing with a sampled ancilla outcome (bosonic simulator only): one ancilla sample per run"""
+    ops.MSgate(0.4, 0.0, 1.0, 0.95, avg=False) | q[0]
+
+
+FRAGS = {"prep": f_prep, "dagger": f_dagger, "free": f_free, "meas": f_meas, "newdel": f_newdel, "loss": f_loss, "meas2": f_meas2, "ffprev": f_ffprev, "delspare": f_delspare, "loss2": f_loss2, "msshot": f_msshot}
 BAD = {"raise-unmeasured": f_raise, "raise-complex": f_raise2}
 
 
@@ -113,8 +118,7 @@ def _args(P):
 
 
 def avail(backend):
-    fr = list(FRAGS)
-    return fr
+    return [f for f in FRAGS if f != "msshot" or backend == "bosonic"]
 
 
 def new_engine(backend):
@@ -172,8 +176,14 @@ def reference(backend, frs):
         P = build(None, frs)
         with warnings.catch_warnings():
             warnings.simplefilter("ignore")
-            _REF[key] = state_data(backend, eng.run(P, args=_args(P)).state)
+            rr = eng.run(P, args=_args(P))
+            _REF[key] = (state_data(backend, rr.state), anc_counts(rr))
     return _REF[key]
+
+
+def anc_counts(result):
+    a = getattr(result, "ancillae_samples", None) or {}
+    return {k: len(v) for k, v in a.items()}
 
 
 class World:
@@ -184,6 +194,7 @@ class World:
         self.last = None  # last user program in the chain of segments
         self.frs = ()
         self.calls = 0  # run calls since reset
+        self.was_reset = False
 
     def hold(self, P):
         self.users.append((P, snapshot(P)))
@@ -208,6 +219,7 @@ class World:
                         return None  # resetting an engine that never ran is outside the property (see DESIGN)
                     self.eng.reset()
                     self.frs, self.last, self.calls = (), None, 0
+                    self.was_reset = True
                     if not self.check_snapshots(res, "reset", case):
                         return False
                     return True
@@ -217,13 +229,29 @@ class World:
                     self.last, new = P, (ev[1],)
                 elif kind == "runopt":
                     P = self.hold(build(self.last, [ev[1]]))
-                    r = self.eng.run(P, args=_args(P), compile_options={"optimize": True})
+                    opts = {"optimize": True}
+                    r = self.eng.run(P, args=_args(P), compile_options=opts)
+                    if opts != {"optimize": True}:
+                        res.violation(f"C09|input-modified|compile_options|{be}", f"run(..., compile_options={{'optimize': True}}) changed the caller's dictionary to {opts}", case)
+                        return False
                     self.last, new = P, (ev[1],)
                 elif kind == "runlist":
                     P = self.hold(build(self.last, [ev[1]]))
                     Q = self.hold(build(P, [ev[2]]))
                     r = self.eng.run([P, Q], args=_args(P))
                     self.last, new = Q, (ev[1], ev[2])
+                elif kind in ("runchain", "runchain-seq"):
+                    # three segments built BEFORE anything runs (so that no measured value is copied at construction)
+                    P = self.hold(build(self.last, [ev[1]]))
+                    Q = self.hold(build(P, [ev[2]]))
+                    R = self.hold(build(Q, [ev[3]]))
+                    if kind == "runchain":
+                        r = self.eng.run([P, Q, R], args=_args(P))
+                    else:
+                        self.eng.run(P, args=_args(P))
+                        self.eng.run(Q, args=_args(Q))
+                        r = self.eng.run(R, args=_args(R))
+                    self.last, new = R, (ev[1], ev[2], ev[3])
                 elif kind == "compilerun":
                     P = self.hold(build(self.last, [ev[1]]))
                     C = P.compile(compiler=self.eng.backend.compiler)
@@ -247,7 +275,7 @@ class World:
                     raise RuntimeError(ev)
             except Exception as e:
                 sig = f"C09|raises|{kind}|{be}"
-                if be == "bosonic" and (self.calls >= 1 or kind == "runlist"):
+                if be == "bosonic" and (self.calls >= 1 or kind == "runlist" or kind.startswith("runchain")):
                     sig = BOSONIC_RESTART
                 res.violation(sig, f"{ev} after fragments {self.frs} raised {type(e).__name__}: {e}", case)
                 return False
@@ -257,10 +285,14 @@ class World:
             return False
         # compositionality: equals ONE program on a fresh engine
         got = state_data(be, r.state)
-        ok, why = same(got, reference(be, self.frs))
+        ref_state, ref_anc = reference(be, self.frs)
+        if be == "bosonic" and anc_counts(r) != ref_anc and not (self.calls >= 2 or kind == "runlist" or kind.startswith("runchain")):
+            res.violation(f"C09|ancilla-samples|{'after-reset' if self.was_reset else 'first-run'}|bosonic", f"after {ev} (fragments since reset: {self.frs}) Result.ancillae_samples holds {anc_counts(r)} outcomes per mode, one fresh run of the same program holds {ref_anc}", case)
+            return False
+        ok, why = same(got, ref_state)
         if not ok:
             sig = f"C09|sequencing|{kind}|{be}"
-            if be == "bosonic" and (self.calls >= 2 or kind == "runlist"):
+            if be == "bosonic" and (self.calls >= 2 or kind == "runlist" or kind.startswith("runchain")):
                 sig = BOSONIC_RESTART
             res.violation(sig, f"state after {ev} (fragments since reset: {self.frs}) differs from one fresh run of the concatenated program: {why}", case)
             return False
@@ -281,7 +313,7 @@ class World:
             except Exception as e:
                 res.violation(f"C09|rerun-raises|{self.backend}", f"running the same Program object again raised {type(e).__name__}: {e}", case)
                 return
-        ok, why = same(state_data(self.backend, r.state), reference(self.backend, self.frs))
+        ok, why = same(state_data(self.backend, r.state), reference(self.backend, self.frs)[0])
         if not ok:
             res.violation(f"C09|rerun-differs|{self.backend}", f"running the same Program object ({self.frs}) again on a fresh engine gives a different state: {why}", case)
 
@@ -298,6 +330,11 @@ def events(backend, quick):
         if (a == "free") != (b == "free"):
             continue  # one args dict is bound to every program of the list: an unknown name is (rightly) an error
         evs.append(("runlist", a, b))
+    # a value measured two segments earlier, fed forward across a segment that measures nothing
+    for a in MEASURING:
+        for b in ("prep", "loss", "dagger"):
+            evs.append(("runchain", a, b, "ffprev"))
+            evs.append(("runchain-seq", a, b, "ffprev"))
     for b in BAD:
         evs.append(("bad", b))
     return evs
@@ -320,7 +357,7 @@ def expand(task):
     for hist in hists:
         for ev in events(backend, quick):
             w = rebuild(backend, hist)
-            nfr = len(w.frs) + (2 if ev[0] == "runlist" else 1 if ev[0] in ("run", "runopt", "compilerun") else 0)
+            nfr = len(w.frs) + (3 if ev[0].startswith("runchain") else 2 if ev[0] == "runlist" else 1 if ev[0] in ("run", "runopt", "compilerun") else 0)
             if nfr > maxfr:
                 continue
             # feed-forward of an earlier outcome is only defined once mode 0 has been measured
@@ -343,6 +380,41 @@ def expand(task):
             if ok:
                 w.rerun_check(res, case)
                 res.extra.append(((backend, w.frs, w.calls > 0), hist + (ev,)))
+    return res
+
+
+def ancilla_histories(res):
+    """bosonic simulator, sampled measurement-based squeezing: every history over {run, reset} of length <= 4 that ends in
+    a run; the ancilla outcomes reported by each Result are those of its own run since the last reset - and stay so"""
+    for hist in itertools.product(("run", "reset"), repeat=4):
+        for L in range(1, 5):
+            h = hist[:L]
+            if h[-1] != "run" or h[0] == "reset" or (L < 4 and hist[L:] != ("run",) * (4 - L)):
+                continue
+            res.n += 1
+            res.nt += 1
+            case = {"ancilla_history": list(h)}
+            w = World("bosonic")
+            results, expected, since = [], [], 0
+            try:
+                for ev in h:
+                    if ev == "reset":
+                        w.eng.reset()
+                        w.last, since = None, 0
+                    else:
+                        P = build(w.last, ["msshot"])
+                        with warnings.catch_warnings():
+                            warnings.simplefilter("ignore")
+                            results.append(w.eng.run(P))
+                        w.last = P
+                        since += 1
+                        expected.append(since)
+            except Exception as e:  # noqa: BLE001
+                res.violation(BOSONIC_RESTART if "run" in h[:-1] else f"C09|ancilla-samples|raises|{type(e).__name__}", f"history {h} raised {e!r}", case)
+                continue
+            got = [anc_counts(r).get(0, 0) for r in results]
+            if got != expected:
+                res.violation("C09|ancilla-samples|history|bosonic", f"history {list(h)} on the bosonic engine (each run applies one sampled MSgate to mode 0): the Results report {got} ancilla outcomes for mode 0, the runs since the last reset are {expected}", case)
     return res
 
 
@@ -379,6 +451,7 @@ def run(ctx):
         total += len(seen)
         if frontier and len(ctx.samples) < 6:
             ctx.samples.append({"backend": backend, "history": [list(e) for e in frontier[len(frontier) // 2]]})
+    ctx.add(ancilla_histories(Res()))
     if not ctx.samples:
         ctx.samples.append({"history": [["run", "prep"], ["runlist", "dagger", "meas"], ["reset"]]})
     ctx.cov.update({"states": total, "transitions": ctx.n, "traces_validated_against_impl": ctx.n, "configurations": per, "evaluations": ctx.n, "distinct_nontrivial": total,
@@ -392,6 +465,9 @@ def run(ctx):
 
 def replay(case):
     res = Res()
+    if "ancilla_history" in case:
+        r = ancilla_histories(Res())
+        return [(s, wh) for s, wh, c in r.viol if c["ancilla_history"] == case["ancilla_history"]]
     w = rebuild(case["backend"], tuple(tuple(e) for e in case["hist"]))
     ok = w.apply(tuple(case["event"]), res, case)
     if ok:
